@@ -87,6 +87,10 @@ pub struct Edit {
 pub enum Source {
     Corpus(String),
     Generated(WbSpec),
+    /// styled cells, rows and columns (the case type of C05)
+    Styled(crate::props::c05::Case),
+    /// annotations of every kind (the spec of C06)
+    Annot(crate::gen::annot::AnnotWb),
 }
 
 #[derive(Debug, Clone, Serialize, Deserialize)]
@@ -94,6 +98,9 @@ pub struct Case {
     pub source: Source,
     pub edit: Option<Edit>,
     pub light: bool,
+    /// the edited workbook is opened lazily (only the edited sheet gets materialised)
+    #[serde(default)]
+    pub lazy_edit: bool,
 }
 
 fn edit_strategy() -> BoxedStrategy<Edit> {
@@ -125,6 +132,7 @@ fn gen_strategy(t: Tier) -> BoxedStrategy<Case> {
             source: Source::Generated(wb),
             edit,
             light,
+            lazy_edit: false,
         })
         .boxed()
 }
@@ -133,16 +141,39 @@ fn gen_strategy(t: Tier) -> BoxedStrategy<Case> {
 /// run once (standard writer, no edit); the thorough tier treats them like all others.
 pub const HEAVY: [&str; 4] = ["issue_216.xlsx", "issue_233.xlsx", "issue_188_3.xlsx", "aaa_large.xlsx"];
 
+fn styled_strategy(t: Tier) -> BoxedStrategy<Case> {
+    (crate::props::c05::small_case(t), prop::option::weighted(0.5, edit_strategy()), any::<bool>())
+        .prop_map(|(c, edit, light)| Case {
+            source: Source::Styled(c),
+            edit,
+            light,
+            lazy_edit: false,
+        })
+        .boxed()
+}
+
+fn annot_strategy(t: Tier) -> BoxedStrategy<Case> {
+    (crate::gen::annot::annot_wb(t, crate::gen::annot::Feat::CLEAN), prop::option::weighted(0.5, edit_strategy()), any::<bool>())
+        .prop_map(|(wb, edit, light)| Case {
+            source: Source::Annot(wb),
+            edit,
+            light,
+            lazy_edit: false,
+        })
+        .boxed()
+}
+
 fn corpus_strategy(t: Tier) -> BoxedStrategy<Case> {
     let mut files = corpus_files();
     if t == Tier::Quick {
         files.retain(|f| !HEAVY.contains(&f.as_str()));
     }
-    (prop::sample::select(files), edit_strategy(), any::<bool>())
-        .prop_map(|(f, edit, light)| Case {
+    (prop::sample::select(files), edit_strategy(), any::<bool>(), any::<bool>())
+        .prop_map(|(f, edit, light, lazy_edit)| Case {
             source: Source::Corpus(f),
             edit: Some(edit),
             light,
+            lazy_edit,
         })
         .boxed()
 }
@@ -177,6 +208,78 @@ fn source_nontrivial(d: &BookDump) -> bool {
     })
 }
 
+/// Semantic comparison of an original with its first re-save.  For files from other
+/// producers one difference is expected and belongs to C03's open finding
+/// `implicit-xf0/style-not-applied`: a cell whose style equals the file's own default record
+/// `cellXfs[0]` is (correctly) written without `s=`, and the library's reader then shows the
+/// library default instead of the file's record.  The written file is right; such a cell
+/// (row, column) is skipped here and counted, every other difference is reported.
+fn sem_diff(a: &BookDump, b: &BookDump, foreign: bool, obs: &mut Obs) -> Option<(String, String, String)> {
+    if !foreign {
+        return diff_books(a, b);
+    }
+    let default_style = style_text(&umya_spreadsheet::Style::default());
+    let strip = |d: &BookDump| -> BookDump {
+        let mut d = d.clone();
+        for s in d.sheets.iter_mut() {
+            // a blank cell that carries only the file's default record comes back as no cell
+            s.cells.retain(|_, v| !v.starts_with("kind=blank text=\"\" formula=\"\" link=None"));
+            for m in [&mut s.cells] {
+                for v in m.values_mut() {
+                    if let Some(i) = v.rfind(" style=") {
+                        v.truncate(i);
+                    }
+                }
+            }
+            for m in [&mut s.rows, &mut s.cols] {
+                for v in m.values_mut() {
+                    if let Some(i) = v.rfind(" style=") {
+                        v.truncate(i);
+                    }
+                }
+            }
+        }
+        d
+    };
+    // everything but styles, strictly
+    if let Some(d) = diff_books(&strip(a), &strip(b)) {
+        return Some(d);
+    }
+    // styles: strict unless the re-saved side shows the library default
+    let style_of = |v: &str| v.rfind(" style=").map(|i| v[i + 7..].to_string()).unwrap_or_default();
+    for (i, (x, y)) in a.sheets.iter().zip(b.sheets.iter()).enumerate() {
+        for (what, ma, mb) in [("cell", &x.cells, &y.cells)] {
+            for (k, va) in ma {
+                if let Some(vb) = mb.get(k) {
+                    let (sa, sb) = (style_of(va), style_of(vb));
+                    if sa != sb {
+                        if sb == default_style {
+                            obs.class("tolerated:implicit-xf0");
+                            continue;
+                        }
+                        return Some((format!("sheet[{}]/{}/{:?}", i, what, k), va.clone(), vb.clone()));
+                    }
+                }
+            }
+        }
+        for (what, ma, mb) in [("row", &x.rows, &y.rows), ("col", &x.cols, &y.cols)] {
+            for (k, va) in ma {
+                if let Some(vb) = mb.get(k) {
+                    let (sa, sb) = (style_of(va), style_of(vb));
+                    if sa != sb {
+                        if sb == default_style {
+                            obs.class("tolerated:implicit-xf0");
+                            continue;
+                        }
+                        return Some((format!("sheet[{}]/{}/{:?}", i, what, k), va.clone(), vb.clone()));
+                    }
+                }
+            }
+        }
+    }
+    None
+}
+
 pub fn check_case(case: &Case, obs: &mut Obs) -> Verdict {
     let light = case.light;
     let l0 = match &case.source {
@@ -199,10 +302,26 @@ pub fn check_case(case: &Case, obs: &mut Obs) -> Verdict {
                 Err(p) => return Verdict::fail(format!("build/panic:{}", p.site()), p.short()),
             }
         }
+        Source::Styled(c) => {
+            obs.class("styled");
+            match guard(|| crate::props::c05::build_all(c)) {
+                Ok(b) => b,
+                Err(p) => return Verdict::fail(format!("build/panic:{}", p.site()), p.short()),
+            }
+        }
+        Source::Annot(wb) => {
+            obs.class("annotated");
+            match guard(|| crate::gen::annot::build(wb)) {
+                Ok(b) => b,
+                Err(p) => return Verdict::fail(format!("build/panic:{}", p.site()), p.short()),
+            }
+        }
     };
     let src = match &case.source {
         Source::Corpus(_) => "corpus",
         Source::Generated(_) => "generated",
+        Source::Styled(_) => "styled",
+        Source::Annot(_) => "annotated",
     };
     let d0 = dump_book(&l0);
     obs.nontrivial(source_nontrivial(&d0));
@@ -216,11 +335,20 @@ pub fn check_case(case: &Case, obs: &mut Obs) -> Verdict {
     };
     let d1 = dump_book(&l1);
     // (ii) orig ~ gen1 (for generated workbooks L0 is the built model itself)
-    if let Some((loc, a, b)) = diff_books(&sem_book(&l0), &sem_book(&l1)) {
+    if let Some((loc, a, b)) = sem_diff(&sem_book(&l0), &sem_book(&l1), matches!(case.source, Source::Corpus(_)), obs) {
         return Verdict::fail(
             format!("{}/gen0-vs-gen1/{}", src, loc_class(&loc)),
             format!("{}: original vs one re-save: {}", loc, focus_diff(&a, &b)),
         );
+    }
+    // annotations of every kind: C06's projection (sets keyed by anchor cell / name)
+    match guard(|| crate::props::c06::diff(&crate::props::c06::project(&l0), &crate::props::c06::project(&l1))) {
+        Ok(fails) => {
+            if let Some((key, detail)) = fails.into_iter().next() {
+                return Verdict::fail(format!("{}/gen0-vs-gen1/annot:{}", src, key), detail);
+            }
+        }
+        Err(p) => return Verdict::fail(format!("{}/gen0-vs-gen1/projection-panic:{}", src, p.site()), p.short()),
     }
     // (i) fixed point
     let b2 = match g("save2", || save(&l1, light)) {
@@ -286,17 +414,24 @@ pub fn check_case(case: &Case, obs: &mut Obs) -> Verdict {
     }
     // (iii) single-cell edit
     if let Some(e) = &case.edit {
-        let mut le = l0;
+        let mut le = if case.lazy_edit {
+            // the first re-save, opened lazily: only the edited sheet gets materialised
+            obs.class("edit:lazy");
+            match g("load1-lazy", || umya_spreadsheet::reader::xlsx::read_reader(std::io::Cursor::new(b1.clone()), false).map_err(|e| format!("{:?}", e))) {
+                Ok(b) => b,
+                Err(v) => return v,
+            }
+        } else {
+            l0
+        };
         let n = le.get_sheet_count();
         if n == 0 {
             return Verdict::Pass;
         }
         let si = pick_idx(e.sheet_raw, n);
         let (col, row, is_new) = {
-            let ws = le.get_sheet(&si).unwrap();
             let mut existing: Vec<(u32, u32)> = d0.sheets[si].cells.keys().cloned().collect();
             existing.sort();
-            let _ = ws;
             match e.existing_raw {
                 Some(r) if !existing.is_empty() => {
                     let (row, col) = existing[pick_idx(r, existing.len())];
@@ -375,6 +510,7 @@ fn extra(ctx: &Ctx) {
                         source: Source::Corpus(f.clone()),
                         edit: None,
                         light,
+                        lazy_edit: false,
                     };
                     let mut obs = Obs::default();
                     let t0 = std::time::Instant::now();
@@ -423,6 +559,20 @@ fn subs() -> Vec<Box<dyn DynSub>> {
             cases: (60, 3000),
             check: check_case,
             max_shrink_iters: 3000,
+        }),
+        Box::new(Sub {
+            name: "styled",
+            strategy: styled_strategy,
+            cases: (40, 2000),
+            check: check_case,
+            max_shrink_iters: 2000,
+        }),
+        Box::new(Sub {
+            name: "annotated",
+            strategy: annot_strategy,
+            cases: (30, 1500),
+            check: check_case,
+            max_shrink_iters: 1500,
         }),
     ]
 }
